@@ -120,6 +120,40 @@ fn value_families(thorough: bool) -> Vec<(String, MetadataWrapper)> {
     for secs in [0i64, 1, 59, 60, 3600, 86400, 86401, 31_536_000] {
         out.push((format!("layout expires+{secs}s"), MetadataWrapper::Layout(world::layout(vec![], vec![], &[], base_t + chrono::Duration::seconds(secs)))));
     }
+    // expiry sweep: every day around every turn of the year 1969..2040, every day of two
+    // years, every second of the last and first day of a year, every minute of a leap day
+    let day = 86_400i64;
+    let epoch = chrono::DateTime::parse_from_rfc3339("1970-01-01T00:00:00Z").unwrap().with_timezone(&chrono::Utc);
+    let mut instants: Vec<i64> = vec![];
+    for y in 1969..=2040i64 {
+        // days since epoch of Jan 1st of year y (proleptic Gregorian)
+        let days = (y - 1970) * 365 + ((y - 1969) / 4) - ((y - 1901) / 100) + ((y - 1601) / 400);
+        for d in -8..=8 {
+            instants.push((days + d) * day);
+            instants.push((days + d) * day + 43_200);
+        }
+    }
+    let y2031 = 22_280 * day; // 2031-01-01
+    for d in 0..731 {
+        instants.push(y2031 + d * day);
+    }
+    if thorough {
+        for sec in 0..(2 * day) {
+            instants.push(y2031 + 364 * day + sec); // 2031-12-31 and 2032-01-01, every second
+        }
+        for min in 0..1440 {
+            instants.push(y2031 + (365 + 59) * day + min * 60); // 2032-02-29, every minute
+        }
+    } else {
+        for sec in (0..(2 * day)).step_by(61) {
+            instants.push(y2031 + 364 * day + sec);
+        }
+    }
+    instants.sort();
+    instants.dedup();
+    for t in instants {
+        out.push((format!("layout expires@{t}"), MetadataWrapper::Layout(world::layout(vec![], vec![], &[], epoch + chrono::Duration::seconds(t)))));
+    }
     // rule forms
     let mut rules: Vec<ArtifactRule> = vec![];
     for p in ["a", "*", "", "IN", "WITH", "FROM"] {
